@@ -78,11 +78,23 @@ func (m *ImportMap) Find(shortName string) *Import {
 	}
 
 	// Priority 2: Search by actual package name
-	// (an import renamed by an explicit alias does not bind its declared name in the file;
-	// blank and dot imports keep it available for annotations)
+	// (an import renamed by an explicit alias does not bind its declared name in the file)
 	for i := range *m {
 		imp := &(*m)[i]
-		if imp.Alias != "" && imp.Alias != "_" && imp.Alias != "." {
+		if imp.Alias != "" {
+			continue
+		}
+		if imp.PackageName != "" && imp.PackageName == shortName {
+			return imp
+		}
+	}
+
+	// Blank and dot imports do not bind the name either, but keep the package available for
+	// annotations when no regular import of the file binds it (_ "net/http/pprof" next to
+	// "runtime/pprof" must not capture the qualifier pprof)
+	for i := range *m {
+		imp := &(*m)[i]
+		if imp.Alias != "_" && imp.Alias != "." {
 			continue
 		}
 		if imp.PackageName != "" && imp.PackageName == shortName {
